@@ -360,21 +360,32 @@ func (nt *c13Net) addNodes(k int) ([]*c13Node, error) {
 		if err := os.MkdirAll(folder, 0o740); err != nil {
 			return nil, err
 		}
-		addr := test.FreeBind("127.0.0.1")
-		priv, err := key.NewKeyPair(addr, nt.sch)
-		if err != nil {
-			return nil, err
-		}
-		clk := clock.NewFakeClockAt(time.Now())
-		n := &c13Node{idx: idx, folder: folder, addr: addr, ctrlPort: test.FreePort(), priv: priv, clock: clk}
-		opts := nt.nodeOpts(n)
-		conf := NewConfig(nt.log, opts...)
-		store := key.NewFileStore(conf.ConfigFolderMB(), nt.beaconID)
-		if err := store.SaveKeyPair(priv); err != nil {
-			return nil, err
-		}
 		ctx := context.Background()
-		daemon, err := NewDrandDaemon(ctx, conf)
+		var (
+			n      *c13Node
+			priv   *key.Pair
+			store  key.Store
+			daemon *DrandDaemon
+			err    error
+		)
+		// several scenario processes pick free ports at the same time: a clash is retried with fresh ones
+		for attempt := 0; attempt < 4; attempt++ {
+			addr := test.FreeBind("127.0.0.1")
+			priv, err = key.NewKeyPair(addr, nt.sch)
+			if err != nil {
+				return nil, err
+			}
+			n = &c13Node{idx: idx, folder: folder, addr: addr, ctrlPort: test.FreePort(), priv: priv, clock: clock.NewFakeClockAt(time.Now())}
+			conf := NewConfig(nt.log, nt.nodeOpts(n)...)
+			store = key.NewFileStore(conf.ConfigFolderMB(), nt.beaconID)
+			if err = store.SaveKeyPair(priv); err != nil {
+				return nil, err
+			}
+			daemon, err = NewDrandDaemon(ctx, conf)
+			if err == nil || !strings.Contains(err.Error(), "address already in use") {
+				break
+			}
+		}
 		if err != nil {
 			return nil, fmt.Errorf("NewDrandDaemon: %w", err)
 		}
